@@ -26,6 +26,7 @@ func main() {
 	outPath := flag.String("out", "-", "trace output")
 	maxSteps := flag.Int("maxsteps", 20000, "scheduler step budget per execution")
 	quiet := flag.Bool("quiet", false, "do not print E lines (observations only)")
+	mem := flag.Bool("mem", false, "log plain memory accesses (M lines) and harness synchronisation (H lines) for the race check")
 	progOnly := flag.Bool("progs", false, "print generated programs only")
 	diff := flag.String("diff", "", "container differential to generate: fifo | pq | manager | config | codec")
 	start := flag.Int("start", 0, "first execution index")
@@ -67,7 +68,7 @@ func main() {
 		if rp.Program.Steps > 0 {
 			ms = rp.Program.Steps
 		}
-		res := runProgram(&rp.Program, rt.Config{Seed: rp.Seed, Strategy: "replay", Schedule: rp.Schedule, MaxSteps: ms, MaxTicks: rp.Program.MaxTicks, TickHold: rp.Program.TickHold})
+		res := runProgram(&rp.Program, rt.Config{Seed: rp.Seed, Strategy: "replay", Schedule: rp.Schedule, MaxSteps: ms, MaxTicks: rp.Program.MaxTicks, TickHold: rp.Program.TickHold, Mem: *mem})
 		emit(w, 0, &rp.Program, rp.Seed, res, *quiet)
 		return
 	}
@@ -91,7 +92,7 @@ func main() {
 			fmt.Fprintln(w, string(b))
 			continue
 		}
-		cfg := rt.Config{Seed: es, Strategy: "random", MaxSteps: *maxSteps, MaxTicks: p.MaxTicks, TickBias: p.TickBias, TickHold: p.TickHold}
+		cfg := rt.Config{Seed: es, Strategy: "random", MaxSteps: *maxSteps, MaxTicks: p.MaxTicks, TickBias: p.TickBias, TickHold: p.TickHold, Mem: *mem}
 		if p.Steps > 0 {
 			cfg.MaxSteps = p.Steps
 		}
